@@ -5,6 +5,7 @@ from hh import log
 import props as P
 import theorems as T
 import special  # registers PRE/SPECIAL hooks
+import fuzzstage
 
 
 def fail_line(pid, path, nofail=False):
@@ -289,6 +290,11 @@ def main(argv):
                     configs_stats.append(run_config(res, pid, tier, seed, c, binp, minfo, workdir, cpu=cpu))
     if special:
         special(res, tier, seed, workdir, configs_stats)
+    # coverage-guided search over API histories on the real crate (support tool, see lib/fuzzstage.py)
+    try:
+        fuzzstage.stage(res, pid, tier, seed, workdir, stats=configs_stats)
+    except Exception as e:
+        res.notes.append(f"coverage-guided search stage failed to run ({str(e)[:200]}): not executed")
     # a proof obligation or the correspondence broke but no oracle failed yet: search the implementation
     # for a concrete input violating the property itself (fresh seeds, oracles only, time-boxed)
     if res.n_oracle_fail == 0 and (res.corr_pending or res.proof_broken) and pid in P.PROPS:
@@ -308,6 +314,11 @@ def main(argv):
                 tried += st["cases"]
                 if res.n_oracle_fail:
                     break
+        if not res.n_oracle_fail and pid in fuzzstage.FUZZ_PIDS:
+            try:
+                fuzzstage.stage(res, pid, tier, seed * 31 + 7, workdir, secs=60, stats=configs_stats)
+            except Exception as e:
+                res.notes.append(f"coverage-guided search after break failed to run: {str(e)[:200]}")
         res.cov["search_after_break"] = dict(extra_cases=tried, seconds=round(time.time() - t_search, 1), found=bool(res.n_oracle_fail))
     return finish(res, proofs_ok, configs_stats)
 
